@@ -41,6 +41,19 @@ func runC20Lin(c *fw.Ctx, item *int64) {
 			c06Param{Engine: eng, Pre: pre, Close: closing, Threads: [][]bt.Op{{{Kind: "GetTable", Table: tblT}}, {mod(bt.Mod{ID: "h", Op: "create", GC: mv(2)})}, {mod(bt.Mod{ID: "g", Op: "drop"})}}},
 		)
 	}
+	// the same kind of mix on the disk engine, followed by a stop and a start: what was served at the end must be what
+	// is persisted (a schema change that writes the definition of a table another request has just deleted, a delete
+	// that removes the definition a re-create has just written)
+	updF := mod(bt.Mod{ID: "f", Op: "update", GC: mv(3)})
+	for _, th := range [][][]bt.Op{
+		{{{Kind: "DeleteTable", Table: tblT}}, {updF}},
+		{{{Kind: "DeleteTable", Table: tblT}}, {mod(bt.Mod{ID: "g", Op: "drop"})}},
+		{{{Kind: "DeleteTable", Table: tblT}, createT}, {updF}},
+		{{{Kind: "DeleteTable", Table: tblT}, createT}, {{Kind: "DeleteTable", Table: tblT}}},
+		{{createU}, {createU, {Kind: "DeleteTable", Table: tblU}}},
+	} {
+		scen = append(scen, c06Param{Engine: "disk", Pre: pre, Close: closing, Restart: true, Threads: th})
+	}
 	for _, p := range scen {
 		*item++
 		if !c.Mine(*item) {
@@ -56,8 +69,14 @@ func runC20Lin(c *fw.Ctx, item *int64) {
 			return
 		}
 		bound := 2
+		if p.Restart {
+			bound = 1 // each execution creates databases on disk and restarts on them; thorough: 2
+		}
 		if c.Thorough() {
 			bound = 3
+			if p.Restart {
+				bound = 2
+			}
 		}
 		n := exploreScenario(c, "C20", sc, bound, 0)
 		c.Note("lin_execs:"+sc.Name, n)
